@@ -48,6 +48,7 @@ type c10Meta struct {
 	// properties are merged into the referrer: known finding KF-C10-2)
 	CrossCombo bool `json:"crossfile_combinator"`
 	PkgOf      map[string]string `json:"pkg_of"`    // tag -> package (base name) its id maps to
+	OutOf      map[string]string `json:"out_of"`    // tag -> output file ("-" = stdout) its id maps to in these runs
 	RecCombo   bool              `json:"rec_combo"` // a reference cycle runs through an allOf/anyOf branch
 	// MergedRel: the target of such a ref itself contains a relative $ref (fragment or
 	// relative file name): merged into the referrer it loses its document context.
@@ -143,7 +144,7 @@ func (p c10) Gen(t *rapid.T, env *Env) (*Case, []*Out) {
 	}
 	w := GenWorldC10(t, maxFiles)
 	env.Stats.NoteFeat(w.Feat)
-	meta := c10Meta{Markers: map[string]string{}, Cycle: hasCrossFileCycle(w), Feat: w.Feat, PkgOf: map[string]string{}, RecCombo: hasRecursiveCombinator(w)}
+	meta := c10Meta{Markers: map[string]string{}, Cycle: hasCrossFileCycle(w), Feat: w.Feat, PkgOf: map[string]string{}, OutOf: map[string]string{}, RecCombo: hasRecursiveCombinator(w)}
 	for _, f := range w.Files {
 		_, pp := expectedRouting(w, f)
 		meta.PkgOf[f.Tag] = pp[strings.LastIndex(pp, "/")+1:]
@@ -250,6 +251,18 @@ func (p c10) Gen(t *rapid.T, env *Env) (*Case, []*Out) {
 			cp := w2
 			fidW, fidArgs = &cp, args
 		}
+		{
+			w3 := w2
+			w3.Opts.Output = strings.ReplaceAll(w3.Opts.Output, RootPH, w.Root)
+			var so []Pair
+			for _, p := range w3.Opts.SchemaOut {
+				so = append(so, Pair{p.K, strings.ReplaceAll(p.V, RootPH, w.Root)})
+			}
+			w3.Opts.SchemaOut = so
+			for _, f := range w.Files {
+				meta.OutOf[f.Tag], _ = expectedRouting(&w3, f)
+			}
+		}
 		c.Runs = append(c.Runs, Run{Label: "cwd " + cwd, Spec: w2.Spec("", nil, args)})
 		meta.Cwds = append(meta.Cwds, cwd)
 		outs = append(outs, env.Exec(&c.Runs[len(c.Runs)-1].Spec))
@@ -337,7 +350,7 @@ func (p c10) Eval(c *Case, outs []*Out) []Discrepancy {
 			sort.Slice(found, func(a, b int) bool { return found[a].path+found[a].name < found[b].path+found[b].name })
 			var own []carrier
 			for _, c := range found {
-				if c.pkg == meta.PkgOf[tag] {
+				if c.path == meta.OutOf[tag] || (meta.OutOf[tag] == "" && c.pkg == meta.PkgOf[tag]) {
 					own = append(own, c)
 				}
 			}
